@@ -38,7 +38,7 @@ ODE_FACTORS = ["-2.0 * nH", "0.5*zeta", "1.0e-17", "-3.0", "-zeta + 0.5 * nH", "
 def budget(tier):
     if tier == "quick":
         return dict(examples=14, shards=16, shrink_calls=60)
-    return dict(examples=300, shards=16, shrink_calls=800)
+    return dict(examples=200, shards=16, shrink_calls=800)
 
 
 @st.composite
